@@ -157,6 +157,96 @@ def h_environ(mode: int, path: str, hi: int, pd: str):
 
 
 # ------------------------------------------------------------------------------------------------
+# repeated header fields: the same field name on more than one line (also in different letter case)
+HNAMES = ["X-Forwarded-For", "x-forwarded-for", "Via", "VIA", "Content-Type", "Content-Length", "Accept"]
+HVALS = ["10.0.0.1", "10.0.0.2", "a b"]
+CLVALS = ["3", "7", "11"]       # values used when the name is Content-Length
+
+
+def pre_hdrs(n: int, n0: int, v0: int, n1: int, v1: int, n2: int, v2: int) -> bool:
+    nn = len(HNAMES)
+    if not (0 <= n <= P.NH and 0 <= n0 < (nn if n > 0 else 1) and in_shard(n0 + nn * (n1 if n > 1 else 0))):
+        return False
+    if not (0 <= n1 < (nn if n > 1 else 1) and 0 <= n2 < (nn if n > 2 else 1)):
+        return False
+    nv = P.NV
+    if not (0 <= v0 < (nv if n > 0 else 1) and 0 <= v1 < (nv if n > 1 else 1) and 0 <= v2 < (nv if n > 2 else 1)):
+        return False
+    # requests the HTTP server accepts carry one Content-Length (HTTP1Connection rejects unequal repeats and
+    # collapses equal ones)
+    cl = HNAMES.index("Content-Length")
+    ncl = (1 if n > 0 and n0 == cl else 0) + (1 if n > 1 and n1 == cl else 0) + (1 if n > 2 and n2 == cl else 0)
+    return ncl <= 1
+
+
+@harness(
+    pre=pre_hdrs,
+    quick=dict(NH=3, NV=2, timeout=150),
+    thorough=dict(NH=3, NV=3, timeout=900),
+    nshards=dict(quick=14, thorough=49),
+    reach=["repeated_name_joined", "case_variants_joined", "three_lines_one_field", "content_type_special",
+           "repeated_content_type", "distinct_fields"],
+    units=["wsgi.WSGIContainer.environ (HTTP_* / CONTENT_* mapping)", "httputil.HTTPHeaders.add/items/pop/__contains__",
+           "httputil.HTTPServerRequest.__init__"],
+    stubs=["request header block = Host + a solver-chosen LIST of 0..NH (name index, value index) pairs added line by line "
+           "with the real HTTPHeaders.add; names from %r (case variants and repeats), values from %r (Content-Length: %r)"
+           % (HNAMES, HVALS, CLVALS),
+           "reference: group the lines by case-insensitive field name in order, join the values with ',', "
+           "HTTP_<NAME with - -> _ upper-cased>; Content-Type / Content-Length -> CONTENT_TYPE / CONTENT_LENGTH only",
+           "constant clock; Host 'h', GET /"],
+    outside=["more than NH extra header lines", "names/values outside the pools", "repeated Content-Length (rejected/collapsed by "
+             "the HTTP/1 connection before the request exists)"],
+)
+def h_environ_headers(n: int, n0: int, v0: int, n1: int, v1: int, n2: int, v2: int):
+    n = IDX[n]
+    lines = []
+    for ni, vi in [(n0, v0), (n1, v1), (n2, v2)][:n]:
+        name = HNAMES[IDX[ni]]
+        lines.append((name, CLVALS[IDX[vi]] if name == "Content-Length" else HVALS[IDX[vi]]))
+    headers = httputil.HTTPHeaders()
+    headers.add("Host", "h")
+    for k, v in lines:
+        headers.add(k, v)
+    conn = DummyConnection(DummyContext("10.0.0.9", "http"))
+    req = httputil.HTTPServerRequest(
+        start_line=httputil.RequestStartLine("GET", "/", "HTTP/1.1"), headers=headers, connection=conn)
+    env = wsgi.WSGIContainer(lambda e, s: []).environ(req)
+    # ---- reference from the list of lines
+    order, groups = [], {}
+    for k, v in lines:
+        lk = k.lower()
+        if lk not in groups:
+            groups[lk] = []
+            order.append(lk)
+        groups[lk].append(v)
+    exp = {"HTTP_HOST": "h"}
+    exp_ct = exp_cl = None
+    for lk in order:
+        joined = ",".join(groups[lk])
+        if lk == "content-type":
+            exp_ct = joined
+            reached("content_type_special")
+            if len(groups[lk]) > 1:
+                reached("repeated_content_type")
+        elif lk == "content-length":
+            exp_cl = joined
+        else:
+            exp["HTTP_" + lk.upper().replace("-", "_")] = joined
+            if len(groups[lk]) > 1:
+                reached("repeated_name_joined")
+                if len(set([k for k, v in lines if k.lower() == lk])) > 1:
+                    reached("case_variants_joined")
+                if len(groups[lk]) == 3:
+                    reached("three_lines_one_field")
+    if len(order) == 3:
+        reached("distinct_fields")
+    got = {k: v for k, v in env.items() if k.startswith("HTTP_")}
+    assert got == exp, "HTTP_* variables %r, the header lines %r require %r" % (got, lines, exp)
+    assert env.get("CONTENT_TYPE") == exp_ct, "CONTENT_TYPE %r != %r" % (env.get("CONTENT_TYPE"), exp_ct)
+    assert env.get("CONTENT_LENGTH") == exp_cl, "CONTENT_LENGTH %r != %r" % (env.get("CONTENT_LENGTH"), exp_cl)
+
+
+# ------------------------------------------------------------------------------------------------
 STATUSES = ["200 OK", "404 Not Found", "304 Not Modified", "500 Internal Server Error", "201 Created Yes"]
 RHDRS = [("Content-Type", "text/plain"), ("Content-Length", "7"), ("Server", "mine"), ("X-A", "1"), ("Set-Cookie", "a=b"),
          ("Set-Cookie", "c=d"), ("content-type", "x/y")]
